@@ -61,29 +61,30 @@ def isNormal (r : Response) : Bool := r.kind == .normal
 
 end Response
 
-/-- `reason_phrase` (src/response.rs), including the two phrases with a trailing blank. -/
-def reasonPhrase (code : Nat) : String :=
+/-- `reason_phrase` (src/response.rs), including the two phrases with a trailing blank; as byte literals so that
+    the kernel can compute with them. -/
+def reasonBytes (code : Nat) : Bytes :=
   match code with
-  | 100 => "Continue" | 101 => "Switching Protocols" | 102 => "Processing" | 103 => "Early Hints"
-  | 200 => "OK" | 201 => "Created" | 202 => "Accepted" | 203 => "Non-Authoritative Information"
-  | 204 => "No Content" | 205 => "Reset Content" | 206 => "Partial Content" | 207 => "Multi-Status"
-  | 208 => "Already Reported" | 226 => "IM Used"
-  | 300 => "Multiple Choice" | 301 => "Moved Permanently" | 302 => "Found" | 303 => "See Other"
-  | 304 => "Not Modified" | 307 => "Temporary Redirect" | 308 => "Permanent Redirect"
-  | 400 => "Bad Request" | 401 => "Unauthorized" | 402 => "Payment Required " | 403 => "Forbidden"
-  | 404 => "Not Found" | 405 => "Method Not Allowed" | 406 => "Not Acceptable"
-  | 407 => "Proxy Authentication Required" | 408 => "Request Timeout" | 409 => "Conflict"
-  | 410 => "Gone" | 411 => "Length Required" | 412 => "Precondition Failed"
-  | 413 => "Payload Too Large" | 414 => "URI Too Long" | 415 => "Unsupported Media Type"
-  | 416 => "Range Not Satisfiable" | 417 => "Expectation Failed" | 418 => "I'm a teapot"
-  | 421 => "Misdirected Request" | 422 => "Unprocessable Entity" | 423 => "Locked"
-  | 424 => "Failed Dependency" | 425 => "Too Early " | 426 => "Upgrade Required"
-  | 428 => "Precondition Required" | 429 => "Too Many Requests"
-  | 431 => "Request Header Fields Too Large" | 451 => "Unavailable For Legal Reasons"
-  | 500 => "Internal Server Error" | 501 => "Not Implemented" | 502 => "Bad Gateway"
-  | 503 => "Service Unavailable" | 504 => "Gateway Timeout" | 505 => "HTTP Version Not Supported"
-  | 506 => "Variant Also Negotiates" | 507 => "Insufficient Storage" | 508 => "Loop Detected"
-  | 510 => "Not Extended" | 511 => "Network Authentication Required"
-  | _ => "Response"
+  | 100 => b!"Continue" | 101 => b!"Switching Protocols" | 102 => b!"Processing" | 103 => b!"Early Hints"
+  | 200 => b!"OK" | 201 => b!"Created" | 202 => b!"Accepted" | 203 => b!"Non-Authoritative Information"
+  | 204 => b!"No Content" | 205 => b!"Reset Content" | 206 => b!"Partial Content" | 207 => b!"Multi-Status"
+  | 208 => b!"Already Reported" | 226 => b!"IM Used"
+  | 300 => b!"Multiple Choice" | 301 => b!"Moved Permanently" | 302 => b!"Found" | 303 => b!"See Other"
+  | 304 => b!"Not Modified" | 307 => b!"Temporary Redirect" | 308 => b!"Permanent Redirect"
+  | 400 => b!"Bad Request" | 401 => b!"Unauthorized" | 402 => b!"Payment Required " | 403 => b!"Forbidden"
+  | 404 => b!"Not Found" | 405 => b!"Method Not Allowed" | 406 => b!"Not Acceptable"
+  | 407 => b!"Proxy Authentication Required" | 408 => b!"Request Timeout" | 409 => b!"Conflict"
+  | 410 => b!"Gone" | 411 => b!"Length Required" | 412 => b!"Precondition Failed"
+  | 413 => b!"Payload Too Large" | 414 => b!"URI Too Long" | 415 => b!"Unsupported Media Type"
+  | 416 => b!"Range Not Satisfiable" | 417 => b!"Expectation Failed" | 418 => b!"I'm a teapot"
+  | 421 => b!"Misdirected Request" | 422 => b!"Unprocessable Entity" | 423 => b!"Locked"
+  | 424 => b!"Failed Dependency" | 425 => b!"Too Early " | 426 => b!"Upgrade Required"
+  | 428 => b!"Precondition Required" | 429 => b!"Too Many Requests"
+  | 431 => b!"Request Header Fields Too Large" | 451 => b!"Unavailable For Legal Reasons"
+  | 500 => b!"Internal Server Error" | 501 => b!"Not Implemented" | 502 => b!"Bad Gateway"
+  | 503 => b!"Service Unavailable" | 504 => b!"Gateway Timeout" | 505 => b!"HTTP Version Not Supported"
+  | 506 => b!"Variant Also Negotiates" | 507 => b!"Insufficient Storage" | 508 => b!"Loop Detected"
+  | 510 => b!"Not Extended" | 511 => b!"Network Authentication Required"
+  | _ => b!"Response"
 
 end Servlin
